@@ -4,25 +4,49 @@
 //! with the `SdsWithExpiry` it returned at the previous evaluation; at every `evaluate` its result
 //! is compared, per component, with R-expiry (reference::expiry_fixpoint: naive (max,min) fixpoint
 //! over the alive annotated facts, seeds `event_time + alpha`, static = infinity) and with the real
-//! `naive_sds_plus`.
+//! `naive_sds_plus`; the external view `sds_with_expiry_to_external(result, all_component_iris(sds))`
+//! — the read path `rsp_engine::emit_cross_window_results` uses on the maintained state — must show
+//! the same fact sets per component.
 //!
-//! History alphabet (8 ops): arrive(w,t) for 2 windows x 3 triples (the listing of t in w gets the
+//! History alphabet: arrive(w,t) for 2 windows x 3 triples (the listing of t in w gets the
 //! current time; a triple is listed once), tick (now += 1; listings with time + alpha <= now are
 //! dropped — `translate_sds_to_datalog` calls a fact alive iff event_time + alpha > current_time),
-//! evaluate (only at a time strictly later than the previous evaluation).
+//! evaluate (only at a time strictly later than the previous evaluation), and — in the
+//! de-duplicated searches only — flush (= max(alpha)+1 ticks, +1 with late eviction: every listing
+//! and every finite carried expiry is over afterwards; a macro that brings "expire everything, then
+//! re-derive" inside the depth bound).
 //! Configurations (each an independent search, this is how the check is sharded):
-//! rule set x (alpha1, alpha2) in {2,3}^2 x static graph with 0/1 triple x eviction (a listing is
+//! rule set x (alpha1, alpha2) x static graph empty / filled x eviction (a listing is
 //! dropped at the tick at which it expires, or one tick later so that the subject is handed a
-//! listed-but-expired fact, which by the statement must not contribute).
+//! listed-but-expired fact, which by the statement must not contribute) x component IRI scheme
+//! (pairwise prefix-free IRIs, or IRIs that are proper prefixes of one another, where filing a
+//! fact under its component depends on the longest-prefix rule of `all_component_iris` /
+//! `strip_window_prefix`; local names never contain '/', every component IRI ends in '/', so the
+//! component of an annotated predicate is unambiguous and the harness knows it by construction,
+//! from the table of (component, local name) pairs it generated, never by splitting strings).
+//!
+//! Searches per configuration:
+//!  (1) BFS from the empty history at start time 0 (depth 6 / 9, thorough 8 for the configurations
+//!      added after the first round), de-duplicated;
+//!  (2) a plain tree search from the empty history at start time 0 (depth 4 / 6, resp. 5), no
+//!      de-duplication;
+//!  (3) seeded searches: 8 fixed prefixes (histories with one to three evaluations: carried alive
+//!      facts, an evaluated renewal, full windows, renewal followed by total expiry, staggered
+//!      ages, three incremental evaluations, re-derivation after total expiry, partial renewal)
+//!      are executed on the real code at a start time of 1000 or 2^40 (every evaluation of the
+//!      prefix is checked too), then a de-duplicated BFS (depth 3 / 4) and an undeduplicated tree
+//!      (depth 3 / 4) continue from the reached state. The quick tier thereby reaches third and
+//!      fourth evaluations after renew -> expire -> re-derive, and the time-shift assumption of the
+//!      de-duplication is exercised at three absolute start times.
 //!
 //! De-duplication. A search state is (window listings, carried SdsWithExpiry, now, "evaluate is
 //! enabled"). Its key is that state *relative to now*: listing ages now - time, carried expiries as
 //! expiry - now (u64::MAX kept as Inf; facts whose expiry is already <= now are kept too, with
 //! their non-positive offset, because whether the subject ignores them is part of what is checked),
 //! and the enabled flag. Why merging two histories with equal keys is sound:
-//!  * the harness-side transition function (arrive/tick/enabledness) reads nothing but this state
-//!    and commutes with shifting every time by a constant, so equal keys have equal successor keys
-//!    for arrive/tick;
+//!  * the harness-side transition function (arrive/tick/flush/enabledness) reads nothing but this
+//!    state and commutes with shifting every time by a constant, so equal keys have equal successor
+//!    keys for arrive/tick/flush;
 //!  * the arguments of every future call of the subject are (rules, Sds built from the listings,
 //!    carried map, dictionary, now): the key contains all of them up to one uniform time shift —
 //!    in particular the carried map is in the key in full, not just the window contents — and the
@@ -32,14 +56,15 @@
 //!  * the oracle is invariant under a uniform time shift.
 //!  Hence the only assumption is that the subject's *pass/fail* on an input does not change when
 //!  all times in that input are shifted by the same constant (it only adds alpha, compares, takes
-//!  min/max). It is stated in `assumptions`, and partly discharged by a second, plain tree search
-//!  without any de-duplication to a smaller depth. De-duplication can never cause a false alarm:
-//!  every reported case is the op list of a real execution and is re-executed from scratch.
+//!  min/max). It is stated in `assumptions`, and partly discharged by the plain tree searches
+//!  without any de-duplication and by running the seeded searches at other absolute times.
+//!  De-duplication can never cause a false alarm: every reported case is the op list of a real
+//!  execution and is re-executed from scratch.
 //!  BFS order makes the first visit of a key the shallowest one, so the remaining depth budget of
-//!  the kept representative is the largest.
+//!  the kept representative is the largest (every BFS has its own `seen` set).
 use crate::infra::{guarded, hash64, Ctx, PropDef, ShardOut};
 use crate::reference::expiry_fixpoint as rx;
-use datalog::cross_window_sds::{Sds, WindowData, WindowedTriple};
+use datalog::cross_window_sds::{all_component_iris, sds_with_expiry_to_external, Sds, WindowData, WindowedTriple};
 use datalog::reasoning::materialisation::cross_window_incremental::{incremental_sds_plus, SdsWithExpiry};
 use datalog::reasoning::materialisation::cross_window_naive::naive_sds_plus;
 use serde_json::{json, Value};
@@ -52,15 +77,15 @@ use std::sync::{Arc, RwLock};
 pub const DEF: PropDef = PropDef {
     id: "C12",
     level: "model_checking",
-    rule: "per configuration (rule set in {copy, join, chain, trans, transdag, static, wrec} x alpha1,alpha2 in {2,3} x static graph with 0/1 triple x eviction exact/one tick late = 128 configurations, each an independent search) breadth-first search over histories of ops arrive(w,t) [2 windows x 3 triples (cycle a-p-b b-p-c c-p-a, or a-p-b b-p-c a-p-c for transdag/wrec); a listing keeps the latest arrival time], tick [now+=1, listings with time+alpha(+1 if late)<=now dropped], evaluate [real incremental_sds_plus with the SdsWithExpiry carried from the previous evaluate; only at a strictly later time than the previous evaluation] up to depth 6 (quick) / 9 (thorough); states de-duplicated on the full state relative to now (listing ages, complete carried map with expiry-now, evaluate-enabled); plus a plain tree search without any de-duplication to depth 4 / 6; every evaluate compares fact sets and expiries per component with the (max,min) reference fixpoint over the alive annotated facts and the fact sets with the real naive_sds_plus. evaluations = evaluate transitions executed on the real code (BFS + tree); states/transitions = BFS only; non-trivial = BFS evaluate whose carried map has a fact still alive and whose expected result has a derived (non-seed) fact; distinct = distinct (configuration, relative pre-state); outcomes = distinct (configuration, relative result)",
+    rule: "per configuration (rule set in {copy, join, chain, trans, transdag, static, xwin, wrec, tri [3-premise rules over w1,w2,w1 and w1,w2,static], twohead [one rule with two conclusions, one of them INTO window w2, plus a join reading it], const [constants in premise and conclusion, a fully ground premise], loop [repeated variable w1:p(x,x), 2-cycle join]} x {IRIs prefix-free, alpha1,alpha2 in {2,3}, static graph empty/filled, eviction exact/one tick late: 16} + {prefix-free, alpha (1,4)/(4,1), static filled, eviction exact/late: 4} + {prefix-NESTED component IRIs http://w/ http://w/x/ http://w/sg/ http://w/x/out/, alpha (2,3)/(3,2), static filled, eviction exact/late: 4} = 12 x 24 = 288 configurations, each an independent search) histories of ops arrive(w,t) [2 windows x 3 triples (cycle a-p-b b-p-c c-p-a; a-p-b b-p-c a-p-c for transdag/wrec; a-p-a a-p-b b-p-a for twohead/loop); a listing keeps the latest arrival time], tick [now+=1, listings with time+alpha(+1 if late)<=now dropped], evaluate [real incremental_sds_plus with the SdsWithExpiry carried from the previous evaluate; only at a strictly later time than the previous evaluation], flush [max(alpha)+1(+1 if late) ticks; de-duplicated searches only]: (1) BFS from the empty history at start time 0 up to depth 6 (quick) / 9 (thorough; 8 for the 160 configurations that are not among the first 8 rule sets x prefix-free x alpha in {2,3}), states de-duplicated on the full state relative to now (listing ages, complete carried map with expiry-now, evaluate-enabled); (2) plain tree search without any de-duplication from the empty history to depth 4 / 6 (5 for those 160); (3) 8 seeded prefixes per configuration (1-3 evaluations each: carried-alive, evaluated renewal, full windows, renewal then total expiry, staggered ages, three incremental evaluations, re-derivation after total expiry, partial renewal) executed at start time 1000 or 2^40 and continued by a de-duplicated BFS to depth 3 / 4 and by an undeduplicated tree to depth 3 / 4 (the two at different start times); every evaluate (also those inside the prefixes) compares fact sets and expiries per component with the (max,min) reference fixpoint over the alive annotated facts and the fact sets with the real naive_sds_plus and with the RSP engine's read path of the maintained state, sds_with_expiry_to_external(result, all_component_iris(sds)); an empty static graph is declared without triples when alpha1=2 and not declared at all when alpha1=3 (what the engine's build_cross_window_sds does); a fact filed under a component other than the one whose IRI + local name spells its predicate is a violation (per-component clause). evaluations = evaluate transitions executed on the real code (all searches + prefixes); states/transitions = the BFSs (1)+(3) (each BFS has its own seen set); non-trivial = BFS evaluate whose carried map has a fact still alive and whose expected result has a derived (non-seed) fact; distinct = distinct (configuration, relative pre-state); outcomes = distinct (configuration, relative result)",
     assumptions: &[
-        "universe: windows http://w1/ http://w2/ (alpha 2 or 3), static graph http://sg/ with triple b-k-c or empty, output component http://out/, entities a b c, arrival time = current time, start time 0",
+        "universe: two windows and one static graph (triple b-k-c, for rule set tri b-k-c and c-k-a, or empty) and one output component; component IRIs either http://w1/ http://w2/ http://sg/ http://out/ or the prefix-nested http://w/ http://w/x/ http://w/sg/ http://w/x/out/; every component IRI ends in '/', local predicate names contain no '/', so an annotated predicate has exactly one reading (component, local name); entities a b c, arrival time = current time, start time 0, 1000 or 2^40; alpha in {1,2,3,4}",
         "alive <=> event_time + alpha > now (translate_sds_to_datalog); a window may keep an expired listing for one more tick (eviction=late) — the statement speaks about alive facts only, so such a listing must not contribute",
-        "all rule predicates are annotated with an IRI of a declared SDS component (window, static graph or output); facts of undeclared components are not part of the carried state and such rule sets are not generated",
+        "all rule predicates are annotated with an IRI of a declared SDS component (window, static graph or output); facts of undeclared components are not part of the carried state and such rule sets are not generated; rules are positive, have 1-3 premises and 1-2 conclusions, subject/object terms are variables or entity constants, predicates are constants",
         "strictly increasing evaluation times (two evaluations at the same time are not generated)",
-        "de-duplication assumes the subject's pass/fail is invariant under shifting all times of one call by a constant; partly discharged by the tree search without de-duplication (counters tree_*); it cannot cause a false alarm, every reported history is re-executed from scratch",
-        "reference model: harness/src/reference/expiry_fixpoint.rs (Kleene iteration in (max,min)), self-tested on hand-computed cases; it never calls Kolibrie",
-        "one dictionary with the whole vocabulary pre-encoded in a fixed order; Dictionary.next_id asserted unchanged after every subject call; results compared lexically",
+        "de-duplication assumes the subject's pass/fail is invariant under shifting all times of one call by a constant; partly discharged by the tree searches without de-duplication (counters tree_*, stree_*) and by running the seeded searches at start times 1000 and 2^40 (counter evals_at_shifted_start); it cannot cause a false alarm, every reported history is re-executed from scratch at its own start time",
+        "reference model: harness/src/reference/expiry_fixpoint.rs (Kleene iteration in (max,min)), self-tested on hand-computed cases; it never calls Kolibrie; the component of a fact is taken from the table of generated (component, local) pairs, not from string splitting",
+        "one dictionary with the whole vocabulary pre-encoded in a fixed order; Dictionary.next_id asserted unchanged after every subject call that agreed with the oracle (a disagreeing call is reported as a violation, and re-executed from scratch, whether or not it also grew the dictionary); results compared lexically",
     ],
     run,
     replay,
@@ -70,101 +95,213 @@ pub const DEF: PropDef = PropDef {
 
 // ---------------------------------------------------------------- universe
 
-const WIN: [&str; 2] = ["http://w1/", "http://w2/"];
-const SG: &str = "http://sg/";
-const OUT: &str = "http://out/";
-const COMPONENTS: [&str; 4] = ["http://w1/", "http://w2/", "http://sg/", "http://out/"];
+/// component indices (into `Iris::comps`)
+const W1: usize = 0;
+const W2: usize = 1;
+const SGC: usize = 2;
+const OUTC: usize = 3;
+
+#[derive(Clone, Copy, Debug, PartialEq, Eq, Hash)]
+enum Iris {
+    /// pairwise prefix-free
+    Plain,
+    /// w1 is a proper prefix of every other component IRI, w2 of the output IRI
+    Nested,
+}
+
+impl Iris {
+    fn comps(self) -> [&'static str; 4] {
+        match self {
+            Iris::Plain => ["http://w1/", "http://w2/", "http://sg/", "http://out/"],
+            Iris::Nested => ["http://w/", "http://w/x/", "http://w/sg/", "http://w/x/out/"],
+        }
+    }
+    fn name(self) -> &'static str {
+        match self {
+            Iris::Plain => "plain",
+            Iris::Nested => "nested",
+        }
+    }
+}
+
 const ENT: [&str; 3] = ["a", "b", "c"];
 /// the three triples of a window alphabet (indices into ENT, local predicate p), chosen per rule set:
-/// a cycle a-p-b, b-p-c, c-p-a (three join pairs, deep recursion) or
-/// a chain with a shortcut a-p-b, b-p-c, a-p-c (a listed fact that is also derivable)
+/// a cycle a-p-b, b-p-c, c-p-a (three join pairs, deep recursion),
+/// a chain with a shortcut a-p-b, b-p-c, a-p-c (a listed fact that is also derivable), or
+/// a self-loop with a 2-cycle a-p-a, a-p-b, b-p-a (repeated variables; a triple and its inverse)
 const CYCLE: [(usize, usize); 3] = [(0, 1), (1, 2), (2, 0)];
 const SHORTCUT: [(usize, usize); 3] = [(0, 1), (1, 2), (0, 2)];
-const STATIC: (&str, &str, &str) = ("b", "k", "c");
-const LOCALS: [&str; 9] = ["p", "k", "cp", "j", "q", "r", "t", "s", "st"];
+const LOOPY: [(usize, usize); 3] = [(0, 0), (0, 1), (1, 0)];
+type StaticTriples = &'static [(&'static str, &'static str, &'static str)];
+const ST_ONE: StaticTriples = &[("b", "k", "c")];
+const ST_TWO: StaticTriples = &[("b", "k", "c"), ("c", "k", "a")];
+/// local predicate names: no '/', none equal to an entity name
+const LOCALS: [&str; 16] = ["p", "k", "cp", "j", "q", "r", "t", "s", "st", "j3", "j3s", "c1", "d1", "l1", "m1", "n1"];
 
-/// atom: component, local predicate name, subject variable, object variable
+/// atom: component index, local predicate name, subject term, object term
+/// (a term that is an entity name a|b|c is a constant, anything else a variable)
 #[derive(Clone, Copy)]
-struct A(&'static str, &'static str, &'static str, &'static str);
+struct A(usize, &'static str, &'static str, &'static str);
 struct RS {
     premise: &'static [A],
     conclusion: &'static [A],
 }
 
-const RULESETS: &[(&str, [(usize, usize); 3], &[RS])] = &[
+struct RuleSetDef {
+    name: &'static str,
+    triples: [(usize, usize); 3],
+    statics: StaticTriples,
+    rules: &'static [RS],
+    /// vacuity marks: (counter name, local predicates whose presence in the expected result of an
+    /// evaluation shows that the rule shape this set was added for really fired)
+    marks: &'static [(&'static str, &'static [&'static str])],
+}
+
+const RULESETS: &[RuleSetDef] = &[
     // copy both windows into the output component (two derivations of one fact: max)
-    (
-        "copy",
-        CYCLE,
-        &[
-            RS { premise: &[A(WIN[0], "p", "x", "y")], conclusion: &[A(OUT, "cp", "x", "y")] },
-            RS { premise: &[A(WIN[1], "p", "x", "y")], conclusion: &[A(OUT, "cp", "x", "y")] },
+    RuleSetDef {
+        name: "copy",
+        triples: CYCLE,
+        statics: ST_ONE,
+        rules: &[
+            RS { premise: &[A(W1, "p", "x", "y")], conclusion: &[A(OUTC, "cp", "x", "y")] },
+            RS { premise: &[A(W2, "p", "x", "y")], conclusion: &[A(OUTC, "cp", "x", "y")] },
         ],
-    ),
+        marks: &[],
+    },
     // join across the two windows (min)
-    ("join", CYCLE, &[RS { premise: &[A(WIN[0], "p", "x", "y"), A(WIN[1], "p", "y", "z")], conclusion: &[A(OUT, "j", "x", "z")] }]),
+    RuleSetDef {
+        name: "join",
+        triples: CYCLE,
+        statics: ST_ONE,
+        rules: &[RS { premise: &[A(W1, "p", "x", "y"), A(W2, "p", "y", "z")], conclusion: &[A(OUTC, "j", "x", "z")] }],
+        marks: &[],
+    },
     // chain through the output component: w1 -> q -> r -> (join with w2) j
-    (
-        "chain",
-        CYCLE,
-        &[
-            RS { premise: &[A(WIN[0], "p", "x", "y")], conclusion: &[A(OUT, "q", "x", "y")] },
-            RS { premise: &[A(OUT, "q", "x", "y")], conclusion: &[A(OUT, "r", "x", "y")] },
-            RS { premise: &[A(OUT, "r", "x", "y"), A(WIN[1], "p", "y", "z")], conclusion: &[A(OUT, "j", "x", "z")] },
+    RuleSetDef {
+        name: "chain",
+        triples: CYCLE,
+        statics: ST_ONE,
+        rules: &[
+            RS { premise: &[A(W1, "p", "x", "y")], conclusion: &[A(OUTC, "q", "x", "y")] },
+            RS { premise: &[A(OUTC, "q", "x", "y")], conclusion: &[A(OUTC, "r", "x", "y")] },
+            RS { premise: &[A(OUTC, "r", "x", "y"), A(W2, "p", "y", "z")], conclusion: &[A(OUTC, "j", "x", "z")] },
         ],
-    ),
+        marks: &[],
+    },
     // recursive transitive rule over the copies of both windows, on the cycle (9 facts, derivations of
     // depth 2) and on the chain with shortcut (direct edge against the two-step path: max of min)
-    (
-        "trans",
-        CYCLE,
-        &[
-            RS { premise: &[A(WIN[0], "p", "x", "y")], conclusion: &[A(OUT, "t", "x", "y")] },
-            RS { premise: &[A(WIN[1], "p", "x", "y")], conclusion: &[A(OUT, "t", "x", "y")] },
-            RS { premise: &[A(OUT, "t", "x", "y"), A(OUT, "t", "y", "z")], conclusion: &[A(OUT, "t", "x", "z")] },
+    RuleSetDef {
+        name: "trans",
+        triples: CYCLE,
+        statics: ST_ONE,
+        rules: &[
+            RS { premise: &[A(W1, "p", "x", "y")], conclusion: &[A(OUTC, "t", "x", "y")] },
+            RS { premise: &[A(W2, "p", "x", "y")], conclusion: &[A(OUTC, "t", "x", "y")] },
+            RS { premise: &[A(OUTC, "t", "x", "y"), A(OUTC, "t", "y", "z")], conclusion: &[A(OUTC, "t", "x", "z")] },
         ],
-    ),
-    (
-        "transdag",
-        SHORTCUT,
-        &[
-            RS { premise: &[A(WIN[0], "p", "x", "y")], conclusion: &[A(OUT, "t", "x", "y")] },
-            RS { premise: &[A(WIN[1], "p", "x", "y")], conclusion: &[A(OUT, "t", "x", "y")] },
-            RS { premise: &[A(OUT, "t", "x", "y"), A(OUT, "t", "y", "z")], conclusion: &[A(OUT, "t", "x", "z")] },
+        marks: &[],
+    },
+    RuleSetDef {
+        name: "transdag",
+        triples: SHORTCUT,
+        statics: ST_ONE,
+        rules: &[
+            RS { premise: &[A(W1, "p", "x", "y")], conclusion: &[A(OUTC, "t", "x", "y")] },
+            RS { premise: &[A(W2, "p", "x", "y")], conclusion: &[A(OUTC, "t", "x", "y")] },
+            RS { premise: &[A(OUTC, "t", "x", "y"), A(OUTC, "t", "y", "z")], conclusion: &[A(OUTC, "t", "x", "z")] },
         ],
-    ),
+        marks: &[],
+    },
     // static premise (infinite expiry), also a fact derived from the static graph alone
-    (
-        "static",
-        CYCLE,
-        &[
-            RS { premise: &[A(WIN[0], "p", "x", "y"), A(SG, "k", "y", "z")], conclusion: &[A(OUT, "s", "x", "z")] },
-            RS { premise: &[A(WIN[1], "p", "x", "y"), A(SG, "k", "y", "z")], conclusion: &[A(OUT, "s", "x", "z")] },
-            RS { premise: &[A(SG, "k", "x", "y")], conclusion: &[A(OUT, "st", "x", "y")] },
+    RuleSetDef {
+        name: "static",
+        triples: CYCLE,
+        statics: ST_ONE,
+        rules: &[
+            RS { premise: &[A(W1, "p", "x", "y"), A(SGC, "k", "y", "z")], conclusion: &[A(OUTC, "s", "x", "z")] },
+            RS { premise: &[A(W2, "p", "x", "y"), A(SGC, "k", "y", "z")], conclusion: &[A(OUTC, "s", "x", "z")] },
+            RS { premise: &[A(SGC, "k", "x", "y")], conclusion: &[A(OUTC, "st", "x", "y")] },
         ],
-    ),
+        marks: &[],
+    },
     // a rule concluding INTO a window component from the other window: a fact can be alive both as
     // a listed stream fact of w1 and as a derivation from a (possibly longer-lived) listing of w2,
     // so its expiry is the max of its own window expiry and the derived one
-    (
-        "xwin",
-        CYCLE,
-        &[
-            RS { premise: &[A(WIN[1], "p", "x", "y")], conclusion: &[A(WIN[0], "p", "x", "y")] },
-            RS { premise: &[A(WIN[0], "p", "x", "y")], conclusion: &[A(OUT, "cp", "x", "y")] },
+    RuleSetDef {
+        name: "xwin",
+        triples: CYCLE,
+        statics: ST_ONE,
+        rules: &[
+            RS { premise: &[A(W2, "p", "x", "y")], conclusion: &[A(W1, "p", "x", "y")] },
+            RS { premise: &[A(W1, "p", "x", "y")], conclusion: &[A(OUTC, "cp", "x", "y")] },
         ],
-    ),
+        marks: &[],
+    },
     // recursion inside a window component: derived facts coincide with stream facts of the same
     // component (a listed fact can be outlived by a derivation of itself), copied on and joined
-    (
-        "wrec",
-        SHORTCUT,
-        &[
-            RS { premise: &[A(WIN[0], "p", "x", "y"), A(WIN[0], "p", "y", "z")], conclusion: &[A(WIN[0], "p", "x", "z")] },
-            RS { premise: &[A(WIN[0], "p", "x", "y")], conclusion: &[A(OUT, "cp", "x", "y")] },
-            RS { premise: &[A(WIN[0], "p", "x", "y"), A(WIN[1], "p", "y", "z")], conclusion: &[A(OUT, "j", "x", "z")] },
+    RuleSetDef {
+        name: "wrec",
+        triples: SHORTCUT,
+        statics: ST_ONE,
+        rules: &[
+            RS { premise: &[A(W1, "p", "x", "y"), A(W1, "p", "y", "z")], conclusion: &[A(W1, "p", "x", "z")] },
+            RS { premise: &[A(W1, "p", "x", "y")], conclusion: &[A(OUTC, "cp", "x", "y")] },
+            RS { premise: &[A(W1, "p", "x", "y"), A(W2, "p", "y", "z")], conclusion: &[A(OUTC, "j", "x", "z")] },
         ],
-    ),
+        marks: &[],
+    },
+    // three premises: three expiry sources (w1, w2, w1 again / static), the delta of a later
+    // evaluation can sit at each of the three premise positions
+    // (find_premise_solutions_with_triples loops over i in 0..3); a consumer of the result
+    RuleSetDef {
+        name: "tri",
+        triples: CYCLE,
+        statics: ST_TWO,
+        rules: &[
+            RS { premise: &[A(W1, "p", "x", "y"), A(W2, "p", "y", "z"), A(W1, "p", "z", "w")], conclusion: &[A(OUTC, "j3", "x", "w")] },
+            RS { premise: &[A(W1, "p", "x", "y"), A(W2, "p", "y", "z"), A(SGC, "k", "z", "w")], conclusion: &[A(OUTC, "j3s", "x", "w")] },
+            RS { premise: &[A(OUTC, "j3", "x", "y")], conclusion: &[A(OUTC, "r", "x", "y")] },
+        ],
+        marks: &[("three_premise_derivation", &["j3", "j3s"]), ("three_premise_derivation_with_static_premise", &["j3s"])],
+    },
+    // one rule with two conclusions in different components, one of them a window component (the
+    // inverse triple, which the alphabet can also list in w2), and a join reading the derived fact
+    RuleSetDef {
+        name: "twohead",
+        triples: LOOPY,
+        statics: ST_ONE,
+        rules: &[
+            RS { premise: &[A(W1, "p", "x", "y")], conclusion: &[A(OUTC, "q", "x", "y"), A(W2, "p", "y", "x")] },
+            RS { premise: &[A(W1, "p", "x", "y"), A(W2, "p", "y", "z")], conclusion: &[A(OUTC, "j", "x", "z")] },
+        ],
+        marks: &[("two_conclusion_derivation", &["q"]), ("join_over_two_conclusion_derivation", &["j"])],
+    },
+    // constants: in a premise subject and the conclusion object; in a premise object; a fully
+    // ground premise
+    RuleSetDef {
+        name: "const",
+        triples: CYCLE,
+        statics: ST_ONE,
+        rules: &[
+            RS { premise: &[A(W1, "p", "a", "y")], conclusion: &[A(OUTC, "c1", "y", "a")] },
+            RS { premise: &[A(W2, "p", "x", "b"), A(W1, "p", "b", "c")], conclusion: &[A(OUTC, "d1", "x", "c")] },
+            RS { premise: &[A(OUTC, "c1", "x", "y"), A(W2, "p", "y", "x")], conclusion: &[A(OUTC, "r", "x", "y")] },
+        ],
+        marks: &[("constant_premise_derivation", &["c1", "d1"]), ("ground_premise_derivation", &["d1"])],
+    },
+    // repeated variable in one premise, a 2-cycle join, and a rule joining on a derived self-loop
+    RuleSetDef {
+        name: "loop",
+        triples: LOOPY,
+        statics: ST_ONE,
+        rules: &[
+            RS { premise: &[A(W1, "p", "x", "x")], conclusion: &[A(OUTC, "l1", "x", "x")] },
+            RS { premise: &[A(W1, "p", "x", "y"), A(W2, "p", "y", "x")], conclusion: &[A(OUTC, "m1", "x", "y")] },
+            RS { premise: &[A(W2, "p", "x", "y"), A(OUTC, "l1", "x", "x")], conclusion: &[A(OUTC, "n1", "x", "y")] },
+        ],
+        marks: &[("repeated_variable_derivation", &["l1", "n1"]), ("two_cycle_join_derivation", &["m1"])],
+    },
 ];
 
 #[derive(Clone, Copy, Debug, PartialEq, Eq, Hash)]
@@ -175,20 +312,32 @@ pub struct Cfg {
     /// false: a listing is dropped by the tick at which it expires (time + alpha <= now);
     /// true: one tick later (the window evicts lazily; the subject sees a listed, expired fact)
     late: bool,
+    iris: Iris,
 }
 
 fn configs() -> Vec<Cfg> {
-    // rule set innermost: shard i % 16 then gets 7 different rule sets with 7 different
-    // (alpha, static, eviction) combinations, which balances the very unequal search sizes
+    // rule set outermost: the 24 configurations of one rule set are dealt round-robin over the 16
+    // shards (consecutive rule sets start at offsets 0, 8, 0, ...), which balances the very unequal
+    // search sizes of the rule sets
     let mut v = Vec::new();
-    for a1 in [2u64, 3] {
-        for a2 in [2u64, 3] {
-            for stat in [false, true] {
-                for late in [false, true] {
-                    for rs in 0..RULESETS.len() {
-                        v.push(Cfg { rs, alpha: [a1, a2], stat, late });
+    for rs in 0..RULESETS.len() {
+        for a1 in [2u64, 3] {
+            for a2 in [2u64, 3] {
+                for stat in [false, true] {
+                    for late in [false, true] {
+                        v.push(Cfg { rs, alpha: [a1, a2], stat, late, iris: Iris::Plain });
                     }
                 }
+            }
+        }
+        for alpha in [[1u64, 4], [4, 1]] {
+            for late in [false, true] {
+                v.push(Cfg { rs, alpha, stat: true, late, iris: Iris::Plain });
+            }
+        }
+        for alpha in [[2u64, 3], [3, 2]] {
+            for late in [false, true] {
+                v.push(Cfg { rs, alpha, stat: true, late, iris: Iris::Nested });
             }
         }
     }
@@ -196,12 +345,12 @@ fn configs() -> Vec<Cfg> {
 }
 
 fn cfg_json(c: &Cfg) -> Value {
-    json!({"ruleset": RULESETS[c.rs].0, "alpha": [c.alpha[0], c.alpha[1]], "static": c.stat, "evict": if c.late { "late" } else { "exact" }})
+    json!({"ruleset": RULESETS[c.rs].name, "alpha": [c.alpha[0], c.alpha[1]], "static": c.stat, "evict": if c.late { "late" } else { "exact" }, "iris": c.iris.name()})
 }
 
 fn parse_cfg(v: &Value) -> Option<Cfg> {
     let name = v["ruleset"].as_str()?;
-    let rs = RULESETS.iter().position(|r| r.0 == name)?;
+    let rs = RULESETS.iter().position(|r| r.name == name)?;
     let a = v["alpha"].as_array()?;
     let alpha = [a.first()?.as_u64()?, a.get(1)?.as_u64()?];
     if alpha.iter().any(|x| *x == 0 || *x > 1000) {
@@ -212,41 +361,61 @@ fn parse_cfg(v: &Value) -> Option<Cfg> {
         "exact" => false,
         _ => return None,
     };
-    Some(Cfg { rs, alpha, stat: v["static"].as_bool()?, late })
+    // cases recorded before the IRI scheme existed have no "iris" member: prefix-free
+    let iris = match v.get("iris").and_then(|x| x.as_str()) {
+        None | Some("plain") => Iris::Plain,
+        Some("nested") => Iris::Nested,
+        _ => return None,
+    };
+    Some(Cfg { rs, alpha, stat: v["static"].as_bool()?, late, iris })
 }
+
+const STARTS: [u64; 3] = [0, 1000, 1 << 40];
 
 // ---------------------------------------------------------------- ops and state
 
-const N_OPS: u8 = 8;
+/// ops of the undeduplicated tree searches: 0..=5 arrive, tick, evaluate
+const N_OPS_TREE: u8 = 8;
+/// the de-duplicated searches also have flush
+const N_OPS_BFS: u8 = 9;
 const OP_TICK: u8 = 6;
 const OP_EVAL: u8 = 7;
+const OP_FLUSH: u8 = 8;
 
 fn op_name(op: u8) -> String {
     match op {
         0..=5 => format!("arrive({},{})", op / 3, op % 3),
         OP_TICK => "tick".to_string(),
-        _ => "evaluate".to_string(),
+        OP_EVAL => "evaluate".to_string(),
+        _ => "flush".to_string(),
     }
 }
 fn parse_op(s: &str) -> Option<u8> {
-    (0..N_OPS).find(|o| op_name(*o) == s)
+    (0..N_OPS_BFS).find(|o| op_name(*o) == s)
 }
 fn ops_json(path: &[u8]) -> Value {
     json!(path.iter().map(|o| op_name(*o)).collect::<Vec<_>>())
 }
+fn case_json(cfg: &Cfg, start: u64, path: &[u8]) -> Value {
+    json!({"config": cfg_json(cfg), "start": start, "ops": ops_json(path)})
+}
 
 #[derive(Clone)]
 struct St {
+    /// start time of the history (not part of the relative key; only recorded for tags/counters)
+    start: u64,
     now: u64,
     /// event time of the listing of triple t in window w
     win: [[Option<u64>; 3]; 2],
     carried: SdsWithExpiry,
     last_eval: Option<u64>,
+    /// number of evaluations executed so far in this history (statistics only, not part of the key)
+    evals_done: u32,
 }
 
 impl St {
-    fn initial() -> St {
-        St { now: 0, win: [[None; 3]; 2], carried: HashMap::new(), last_eval: None }
+    fn initial_at(start: u64) -> St {
+        St { start, now: start, win: [[None; 3]; 2], carried: HashMap::new(), last_eval: None, evals_done: 0 }
     }
     fn eval_enabled(&self) -> bool {
         self.last_eval.map_or(true, |e| self.now > e)
@@ -266,6 +435,26 @@ impl St {
             }
         }
     }
+    /// enough single ticks that every listing is dropped and every finite carried expiry is over
+    fn flush(&mut self, cfg: &Cfg) {
+        for _ in 0..(cfg.alpha[0].max(cfg.alpha[1]) + 1 + cfg.late as u64) {
+            self.tick(cfg);
+        }
+    }
+    /// arrive / tick / flush (never evaluate)
+    fn apply_plain(&mut self, cfg: &Cfg, op: u8) {
+        match op {
+            0..=5 => self.arrive((op / 3) as usize, (op % 3) as usize),
+            OP_TICK => self.tick(cfg),
+            OP_FLUSH => self.flush(cfg),
+            _ => unreachable!("evaluate is not a plain op"),
+        }
+    }
+    fn after_eval(&mut self, result: SdsWithExpiry) {
+        self.carried = result;
+        self.last_eval = Some(self.now);
+        self.evals_done += 1;
+    }
 }
 
 #[derive(Clone, Debug, PartialEq, Eq, Hash, PartialOrd, Ord)]
@@ -277,7 +466,7 @@ fn rel(e: u64, now: u64) -> RelExp {
     if e == u64::MAX {
         RelExp::Inf
     } else {
-        RelExp::Rel(e as i64 - now as i64)
+        RelExp::Rel((e as i128 - now as i128) as i64)
     }
 }
 
@@ -317,36 +506,92 @@ fn fp128<T: std::hash::Hash>(t: &T) -> (u64, u64) {
     (hash64(t), hash64(&(0x9e3779b97f4a7c15u64, t)))
 }
 
+// ---------------------------------------------------------------- seeded prefixes
+
+const fn arr(w: u8, t: u8) -> u8 {
+    w * 3 + t
+}
+
+/// Fixed prefixes (the same for every configuration; what they reach depends on alpha). Every
+/// evaluate in them is enabled: each is preceded by a tick/flush since the previous one.
+fn seed_prefixes() -> Vec<(&'static str, Vec<u8>)> {
+    const T: u8 = OP_TICK;
+    const E: u8 = OP_EVAL;
+    const F: u8 = OP_FLUSH;
+    vec![
+        // two listed facts evaluated, one tick later: carried facts alive
+        ("carried_alive", vec![arr(0, 0), arr(1, 1), E, T]),
+        // ... then one of them renewed and evaluated again: the next evaluation is the third
+        ("renewal_evaluated", vec![arr(0, 0), arr(1, 1), E, T, arr(0, 0), E, T]),
+        // both windows full
+        ("full_windows", vec![arr(0, 0), arr(1, 0), arr(0, 1), arr(1, 1), arr(0, 2), arr(1, 2), E, T]),
+        // renewal evaluated, then everything expires: the carried map holds only expired facts
+        ("renewal_then_total_expiry", vec![arr(0, 0), arr(1, 1), E, T, arr(0, 0), E, F]),
+        // listings of different ages, the older ones at or past their expiry for the smaller alphas
+        ("staggered_ages", vec![arr(0, 0), arr(0, 1), T, arr(1, 1), arr(1, 2), E, T, T]),
+        // three evaluations, each with new arrivals: the next evaluation is the fourth
+        ("three_evaluations", vec![arr(0, 2), arr(1, 2), E, T, arr(0, 0), arr(1, 1), E, T, arr(0, 1), arr(1, 0), E, T]),
+        // evaluate, expire everything, the same facts arrive again and are evaluated: re-derivation
+        ("rederived_after_total_expiry", vec![arr(0, 0), arr(1, 0), arr(1, 1), E, F, arr(0, 0), arr(1, 0), arr(1, 1), E, T]),
+        // two ticks, then two of three listed facts arrive again (renewed for alpha 3/4, expired and
+        // new for alpha 1/2), third left to age
+        ("partial_renewal", vec![arr(0, 0), arr(1, 1), arr(0, 2), arr(1, 2), E, T, T, arr(0, 0), arr(1, 1), E, T]),
+    ]
+}
+
 // ---------------------------------------------------------------- environment of one configuration
 
 struct Env {
     cfg: Cfg,
+    comps: [&'static str; 4],
     dict: Arc<RwLock<Dictionary>>,
     names: Vec<String>,
+    /// annotated predicate -> (component index, local name): the generated pairs, unique by assertion
+    table: HashMap<String, (usize, &'static str)>,
+    /// component indices whose IRI has another declared component IRI as a proper prefix
+    inner_comps: Vec<usize>,
     rules: Vec<Rule>,
     ref_rules: Vec<rx::Rule>,
 }
 
+fn is_entity(name: &str) -> bool {
+    ENT.contains(&name)
+}
+
 fn make_env(cfg: Cfg) -> Env {
+    let comps = cfg.iris.comps();
     let mut d = Dictionary::new();
     // whole vocabulary, fixed order
     for e in ENT {
         d.encode(e);
     }
     for l in LOCALS {
+        assert!(!l.contains('/') && !is_entity(l), "local names contain no '/' and differ from entity names");
         d.encode(l);
     }
-    for comp in COMPONENTS {
+    let mut table: HashMap<String, (usize, &'static str)> = HashMap::new();
+    for (ci, comp) in comps.iter().enumerate() {
+        assert!(comp.ends_with('/'), "component IRIs end in '/'");
         for l in LOCALS {
-            d.encode(&format!("{}{}", comp, l));
+            let annotated = format!("{}{}", comp, l);
+            d.encode(&annotated);
+            assert!(table.insert(annotated, (ci, l)).is_none(), "an annotated predicate has one reading");
         }
     }
+    let inner_comps: Vec<usize> = (0..4).filter(|i| (0..4).any(|j| j != *i && comps[*i].starts_with(comps[j]))).collect();
     let names: Vec<String> = (0..d.next_id).map(|i| d.decode(i).unwrap_or("<undecodable>").to_string()).collect();
     let mut rules = Vec::new();
     let mut ref_rules = Vec::new();
-    for rs in RULESETS[cfg.rs].2 {
-        let sub_atom = |a: &A, d: &mut Dictionary| (Term::Variable(a.2.to_string()), Term::Constant(d.encode(&format!("{}{}", a.0, a.1))), Term::Variable(a.3.to_string()));
-        let ref_atom = |a: &A| (rx::v(a.2), rx::c(&format!("{}{}", a.0, a.1)), rx::v(a.3));
+    for rs in RULESETS[cfg.rs].rules {
+        let sub_term = |name: &str, d: &mut Dictionary| if is_entity(name) { Term::Constant(d.encode(name)) } else { Term::Variable(name.to_string()) };
+        let sub_atom = |a: &A, d: &mut Dictionary| {
+            let s = sub_term(a.2, d);
+            let p = Term::Constant(d.encode(&format!("{}{}", comps[a.0], a.1)));
+            let o = sub_term(a.3, d);
+            (s, p, o)
+        };
+        let ref_term = |name: &str| if is_entity(name) { rx::c(name) } else { rx::v(name) };
+        let ref_atom = |a: &A| (ref_term(a.2), rx::c(&format!("{}{}", comps[a.0], a.1)), ref_term(a.3));
         rules.push(Rule {
             premise: rs.premise.iter().map(|a| sub_atom(a, &mut d)).collect(),
             negative_premise: vec![],
@@ -356,15 +601,36 @@ fn make_env(cfg: Cfg) -> Env {
         ref_rules.push(rx::Rule { premise: rs.premise.iter().map(ref_atom).collect(), conclusion: rs.conclusion.iter().map(ref_atom).collect() });
     }
     assert_eq!(d.next_id as usize, names.len(), "rule predicates must be part of the pre-encoded vocabulary");
-    Env { cfg, dict: Arc::new(RwLock::new(d)), names, rules, ref_rules }
+    Env { cfg, comps, dict: Arc::new(RwLock::new(d)), names, table, inner_comps, rules, ref_rules }
 }
 
 impl Env {
     fn triples(&self) -> [(usize, usize); 3] {
-        RULESETS[self.cfg.rs].1
+        RULESETS[self.cfg.rs].triples
+    }
+    fn statics(&self) -> StaticTriples {
+        if self.cfg.stat {
+            RULESETS[self.cfg.rs].statics
+        } else {
+            &[]
+        }
+    }
+    /// An empty static graph is either declared with no triples (alpha1 = 2) or not declared at all
+    /// (alpha1 = 3; this is what the RSP engine's build_cross_window_sds does when the static
+    /// database is empty). Rules reading the static component then simply never fire; no fact of an
+    /// undeclared component can arise, because no rule set concludes into the static component.
+    fn static_undeclared(&self) -> bool {
+        !self.cfg.stat && self.cfg.alpha[0] == 3
     }
     fn name(&self, id: u32) -> String {
         self.names.get(id as usize).cloned().unwrap_or_else(|| format!("<id {} outside the vocabulary>", id))
+    }
+    /// (component IRI, local name) of an annotated predicate, by construction
+    fn reading(&self, pred: &str) -> (String, String) {
+        match self.table.get(pred) {
+            Some((ci, local)) => (self.comps[*ci].to_string(), local.to_string()),
+            None => ("<no component>".to_string(), pred.to_string()),
+        }
     }
     fn build_sds(&self, st: &St) -> Sds {
         let mut sds = Sds::new();
@@ -375,11 +641,13 @@ impl Env {
                     triples.push(WindowedTriple { subject: ENT[self.triples()[t].0].to_string(), predicate: "p".to_string(), object: ENT[self.triples()[t].1].to_string(), event_time: time });
                 }
             }
-            sds.windows.insert(WIN[w].to_string(), WindowData { alpha: self.cfg.alpha[w], triples });
+            sds.windows.insert(self.comps[w].to_string(), WindowData { alpha: self.cfg.alpha[w], triples });
         }
-        let stat = if self.cfg.stat { vec![(STATIC.0.to_string(), STATIC.1.to_string(), STATIC.2.to_string())] } else { vec![] };
-        sds.static_graphs.insert(SG.to_string(), stat);
-        sds.output_iris.insert(OUT.to_string());
+        let stat: Vec<(String, String, String)> = self.statics().iter().map(|t| (t.0.to_string(), t.1.to_string(), t.2.to_string())).collect();
+        if !self.static_undeclared() {
+            sds.static_graphs.insert(self.comps[SGC].to_string(), stat);
+        }
+        sds.output_iris.insert(self.comps[OUTC].to_string());
         sds
     }
     /// annotated seed facts with their expiry (event time + alpha; static = infinity)
@@ -388,12 +656,12 @@ impl Env {
         for w in 0..2 {
             for t in 0..3 {
                 if let Some(time) = st.win[w][t] {
-                    v.push(((ENT[self.triples()[t].0].to_string(), format!("{}p", WIN[w]), ENT[self.triples()[t].1].to_string()), time + self.cfg.alpha[w]));
+                    v.push(((ENT[self.triples()[t].0].to_string(), format!("{}p", self.comps[w]), ENT[self.triples()[t].1].to_string()), time + self.cfg.alpha[w]));
                 }
             }
         }
-        if self.cfg.stat {
-            v.push(((STATIC.0.to_string(), format!("{}{}", SG, STATIC.1), STATIC.2.to_string()), rx::INF));
+        for t in self.statics() {
+            v.push(((t.0.to_string(), format!("{}{}", self.comps[SGC], t.1), t.2.to_string()), rx::INF));
         }
         v
     }
@@ -401,15 +669,6 @@ impl Env {
 
 /// (component, subject, local predicate, object)
 type FactKey = (String, String, String, String);
-
-fn split_component(pred: &str) -> (String, String) {
-    for comp in COMPONENTS {
-        if let Some(local) = pred.strip_prefix(comp) {
-            return (comp.to_string(), local.to_string());
-        }
-    }
-    ("<no component>".to_string(), pred.to_string())
-}
 
 fn show_exp(e: u64) -> String {
     if e == u64::MAX {
@@ -427,6 +686,7 @@ fn show_facts(m: &BTreeMap<FactKey, u64>) -> String {
 #[derive(Default, Clone)]
 struct Flags {
     first: bool,
+    third_or_later: bool,
     carried_alive: bool,
     carried_expired: bool,
     renewed_base: bool,
@@ -440,6 +700,13 @@ struct Flags {
     seed_outlived: bool,
     listed_expired: bool,
     nontrivial: bool,
+    shifted_start: bool,
+    alpha_1_or_4: bool,
+    static_undeclared: bool,
+    /// the expected result has a fact in a component whose IRI extends another component's IRI
+    fact_in_nested_component: bool,
+    /// marks of the rule set that are present in the expected result
+    marks: Vec<&'static str>,
     facts: u64,
 }
 
@@ -465,7 +732,7 @@ fn expected_result(env: &Env, st: &St) -> BTreeMap<FactKey, u64> {
     let fix = rx::fixpoint_alive(&env.ref_rules, &env.seeds(st), st.now);
     fix.into_iter()
         .map(|((s, p, o), e)| {
-            let (comp, local) = split_component(&p);
+            let (comp, local) = env.reading(&p);
             ((comp, s, local, o), e)
         })
         .collect()
@@ -481,23 +748,24 @@ fn evaluate(env: &Env, st: &St) -> Result<EvalOk, EvalErr> {
         .into_iter()
         .filter(|(_, e)| *e > st.now)
         .map(|((s, p, o), e)| {
-            let (comp, local) = split_component(&p);
+            let (comp, local) = env.reading(&p);
             ((comp, s, local, o), e)
         })
         .collect();
 
-    // old (carried) facts, lexical
+    // old (carried) facts, lexical; a carried map is a previous, already checked result of the
+    // subject, so every fact in it is filed under the component its predicate spells
     let mut old: BTreeMap<FactKey, u64> = BTreeMap::new();
     for (comp, m) in &st.carried {
         for (t, e) in m {
-            let pred = env.name(t.predicate);
-            let local = pred.strip_prefix(comp.as_str()).map(|s| s.to_string()).unwrap_or(pred.clone());
+            let (_, local) = env.reading(&env.name(t.predicate));
             old.insert((comp.clone(), env.name(t.subject), local, env.name(t.object)), *e);
         }
     }
 
     let mut flags = Flags::default();
     flags.first = st.last_eval.is_none();
+    flags.third_or_later = st.evals_done >= 2;
     flags.carried_alive = old.values().any(|e| *e > st.now);
     flags.carried_expired = old.values().any(|e| *e <= st.now);
     flags.renewed_base = seeds.iter().any(|(k, e)| old.get(k).map_or(false, |o| *o > st.now && *o < *e));
@@ -511,13 +779,19 @@ fn evaluate(env: &Env, st: &St) -> Result<EvalOk, EvalErr> {
     flags.seed_outlived = seeds.iter().any(|(k, e)| expected.get(k).map_or(false, |x| *x > *e));
     flags.listed_expired = env.seeds(st).iter().any(|(_, e)| *e <= st.now);
     flags.nontrivial = flags.carried_alive && flags.derived_present;
+    flags.shifted_start = st.start != 0;
+    flags.alpha_1_or_4 = env.cfg.alpha.iter().any(|a| *a == 1 || *a == 4);
+    flags.static_undeclared = env.static_undeclared();
+    flags.fact_in_nested_component = expected.keys().any(|k| env.inner_comps.iter().any(|i| env.comps[*i] == k.0));
+    flags.marks = RULESETS[env.cfg.rs].marks.iter().filter(|(_, locals)| expected.keys().any(|k| locals.contains(&k.2.as_str()))).map(|(name, _)| *name).collect();
     flags.facts = expected.len() as u64;
 
     let mut tags = vec![
-        format!("ruleset={}", RULESETS[env.cfg.rs].0),
+        format!("ruleset={}", RULESETS[env.cfg.rs].name),
         format!("alpha={},{}", env.cfg.alpha[0], env.cfg.alpha[1]),
         format!("static={}", env.cfg.stat as u8),
         format!("evict={}", if env.cfg.late { "late" } else { "exact" }),
+        format!("iris={}", env.cfg.iris.name()),
         (if flags.first { "first_evaluation" } else { "later_evaluation" }).to_string(),
     ];
     if flags.carried_alive {
@@ -535,6 +809,12 @@ fn evaluate(env: &Env, st: &St) -> Result<EvalOk, EvalErr> {
     if flags.listed_expired {
         tags.push("expired_fact_still_listed".into());
     }
+    if flags.shifted_start {
+        tags.push("start_time_nonzero".into());
+    }
+    if flags.static_undeclared {
+        tags.push("static_graph_undeclared".into());
+    }
 
     // ---- the real code
     let inc = match guarded(|| incremental_sds_plus(&env.rules, &sds, &st.carried, &env.dict, st.now)) {
@@ -550,20 +830,33 @@ fn evaluate(env: &Env, st: &St) -> Result<EvalOk, EvalErr> {
             return Err(EvalErr::Violation(Violation { symptom: "panic", detail: format!("naive_sds_plus panicked: {}", msg), tags }));
         }
     };
+    // the read path the RSP engine uses on the maintained state (emit_cross_window_results):
+    // per component, the facts with the component prefix stripped from the predicate
+    let external = match guarded(|| sds_with_expiry_to_external(&inc, &env.dict, &all_component_iris(&sds))) {
+        Ok(r) => r,
+        Err(msg) => {
+            tags.push("in=sds_with_expiry_to_external".into());
+            return Err(EvalErr::Violation(Violation { symptom: "panic", detail: format!("sds_with_expiry_to_external panicked: {}", msg), tags }));
+        }
+    };
     let id_after = env.dict.read().unwrap().next_id;
-    if id_after != id_before {
-        return Err(EvalErr::Machinery(format!("dictionary grew from {} to {} during an evaluation: the vocabulary is not closed, ids may differ between merged histories", id_before, id_after)));
-    }
 
     // ---- decode
     let mut got: BTreeMap<FactKey, u64> = BTreeMap::new();
+    // facts filed under a component other than the one their predicate spells (sorted: the
+    // subject's maps iterate in hash order, the report must be deterministic)
+    let mut misfiled: BTreeSet<(String, String)> = BTreeSet::new();
     for (comp, m) in &inc {
         for (t, e) in m {
             let pred = env.name(t.predicate);
-            let local = match pred.strip_prefix(comp.as_str()) {
-                Some(l) => l.to_string(),
-                None => format!("<predicate {} filed under another component>", pred),
-            };
+            let (true_comp, local) = env.reading(&pred);
+            if true_comp != *comp {
+                misfiled.insert((format!("{}({},{})", pred, env.name(t.subject), env.name(t.object)), format!("filed under {} instead of {}", comp, true_comp)));
+                // shown with its full predicate: (wrong component, local) could coincide with a
+                // rightly filed fact, and which of the two a map keeps would depend on hash order
+                got.insert((comp.clone(), env.name(t.subject), format!("<{}>", pred), env.name(t.object)), *e);
+                continue;
+            }
             got.insert((comp.clone(), env.name(t.subject), local, env.name(t.object)), *e);
         }
     }
@@ -576,6 +869,14 @@ fn evaluate(env: &Env, st: &St) -> Result<EvalOk, EvalErr> {
 
     // ---- compare: incremental against the reference
     let context = |what: String| format!("{} | now={} expected={} incremental={} carried={}", what, st.now, show_facts(&expected), show_facts(&got), show_facts(&old));
+    if let Some((fact, how)) = misfiled.iter().next() {
+        tags.push("in=incremental_sds_plus".into());
+        return Err(EvalErr::Violation(Violation {
+            symptom: "fact_under_wrong_component",
+            detail: context(format!("{} is {} ({} facts misfiled)", fact, how, misfiled.len())),
+            tags,
+        }));
+    }
     for k in expected.keys() {
         if !got.contains_key(k) {
             tags.push(format!("component={}", k.0));
@@ -615,6 +916,28 @@ fn evaluate(env: &Env, st: &St) -> Result<EvalOk, EvalErr> {
             tags,
         }));
     }
+    // ---- compare: the external view of the maintained state against the reference (fact sets)
+    let mut got_external: BTreeSet<FactKey> = BTreeSet::new();
+    for (comp, v) in &external {
+        for t in v {
+            got_external.insert((comp.clone(), env.name(t.subject), env.name(t.predicate), env.name(t.object)));
+        }
+    }
+    if got_external != exp_set {
+        let missing: Vec<&FactKey> = exp_set.difference(&got_external).collect();
+        let extra: Vec<&FactKey> = got_external.difference(&exp_set).collect();
+        tags.push("in=sds_with_expiry_to_external".into());
+        return Err(EvalErr::Violation(Violation {
+            symptom: "external_view_differs",
+            detail: format!("the external view (sds_with_expiry_to_external over all_component_iris) of the incremental result at now={} misses {:?} and has extra {:?}; expected {}", st.now, missing, extra, show_facts(&expected)),
+            tags,
+        }));
+    }
+    // ---- the vocabulary must be closed (soundness of merging histories); only reached when the
+    // results agree, so a defect that also encodes new strings is reported as the violation it is
+    if id_after != id_before {
+        return Err(EvalErr::Machinery(format!("dictionary grew from {} to {} during an evaluation: the vocabulary is not closed, ids may differ between merged histories", id_before, id_after)));
+    }
     Ok(EvalOk { result: inc, flags, expected })
 }
 
@@ -625,6 +948,9 @@ fn note_flags(out: &mut ShardOut, prefix: &str, f: &Flags) {
         }
     };
     c("first_of_history", f.first);
+    c("third_or_later_of_history", f.third_or_later);
+    c("third_or_later_with_rederivation_after_expiry", f.third_or_later && f.rederived_after_expiry);
+    c("third_or_later_with_renewed_base_fact", f.third_or_later && f.renewed_base);
     c("with_carried_alive_fact", f.carried_alive);
     c("with_carried_expired_fact", f.carried_expired);
     c("with_renewed_base_fact", f.renewed_base);
@@ -638,6 +964,28 @@ fn note_flags(out: &mut ShardOut, prefix: &str, f: &Flags) {
     c("with_listed_fact_outlived_by_its_derivation", f.seed_outlived);
     c("with_expired_fact_still_listed", f.listed_expired);
     out.count(&format!("{}facts_compared", prefix), f.facts);
+    // family counters, over all searches
+    let mut g = |name: String, b: bool| {
+        if b {
+            out.count(&name, 1);
+        }
+    };
+    g("evals_at_shifted_start".into(), f.shifted_start);
+    g("evals_at_shifted_start_with_carried_alive_fact".into(), f.shifted_start && f.carried_alive);
+    g("evals_at_shifted_start_with_renewed_base_fact".into(), f.shifted_start && f.renewed_base);
+    g("evals_alpha_1_or_4".into(), f.alpha_1_or_4);
+    g("evals_alpha_1_or_4_with_carried_alive_fact".into(), f.alpha_1_or_4 && f.carried_alive);
+    g("evals_alpha_1_or_4_with_carried_expired_fact".into(), f.alpha_1_or_4 && f.carried_expired);
+    g("evals_alpha_1_or_4_with_renewed_base_fact".into(), f.alpha_1_or_4 && f.renewed_base);
+    g("evals_with_static_graph_undeclared".into(), f.static_undeclared);
+    g("evals_with_fact_in_prefix_nested_component".into(), f.fact_in_nested_component);
+    g("evals_with_fact_in_prefix_nested_component_and_carried_alive_fact".into(), f.fact_in_nested_component && f.carried_alive);
+    for m in &f.marks {
+        g(format!("evals_with_{}", m), true);
+        // later evaluation in which only part of the alive facts is new: the delta is a strict subset
+        g(format!("evals_with_{}_carried_alive_and_new_or_renewed_base", m), f.carried_alive && (f.new_base || f.renewed_base));
+        g(format!("evals_with_{}_and_derived_expiry_changed", m), f.derived_expiry_changed);
+    }
 }
 
 // ---------------------------------------------------------------- executing a history from scratch
@@ -651,15 +999,13 @@ struct HistoryResult {
     results: Vec<String>,
 }
 
-fn run_history(cfg: Cfg, path: &[u8]) -> HistoryResult {
+fn run_history(cfg: Cfg, start: u64, path: &[u8]) -> HistoryResult {
     let env = make_env(cfg);
-    let mut st = St::initial();
+    let mut st = St::initial_at(start);
     let mut res = HistoryResult { failure: None, machinery: None, evals: 0, results: vec![] };
     for (i, op) in path.iter().enumerate() {
         match *op {
-            0..=5 => st.arrive((*op / 3) as usize, (*op % 3) as usize),
-            OP_TICK => st.tick(&cfg),
-            _ => {
+            OP_EVAL => {
                 if !st.eval_enabled() {
                     res.machinery = Some(format!("op {} is an evaluate at the time of the previous evaluation (outside the quantifier)", i));
                     return res;
@@ -668,8 +1014,7 @@ fn run_history(cfg: Cfg, path: &[u8]) -> HistoryResult {
                 match evaluate(&env, &st) {
                     Ok(ok) => {
                         res.results.push(format!("now={} {}", st.now, show_facts(&ok.expected)));
-                        st.carried = ok.result;
-                        st.last_eval = Some(st.now);
+                        st.after_eval(ok.result);
                     }
                     Err(EvalErr::Violation(v)) => {
                         res.failure = Some((i, v));
@@ -681,25 +1026,29 @@ fn run_history(cfg: Cfg, path: &[u8]) -> HistoryResult {
                     }
                 }
             }
+            o if o < N_OPS_BFS => st.apply_plain(&cfg, o),
+            o => {
+                res.machinery = Some(format!("op {} has the unknown code {}", i, o));
+                return res;
+            }
         }
     }
     res
 }
 
-fn record_failure(out: &mut ShardOut, cfg: Cfg, path: &[u8], v: Violation) {
+fn record_failure(out: &mut ShardOut, cfg: Cfg, start: u64, path: &[u8], v: Violation) {
     // determinism before verdict: the same history once more from scratch, fresh dictionary
-    let again = run_history(cfg, path);
+    let again = run_history(cfg, start, path);
     match again.failure {
         Some((step, v2)) if step == path.len() - 1 && v2.symptom == v.symptom && v2.detail == v.detail => {
             let mut tags = v.tags;
             tags.push(format!("history_evaluations={}", again.evals.min(3)));
-            out.fail(json!({"config": cfg_json(&cfg), "ops": ops_json(path)}), v.symptom, v.detail, tags);
+            out.fail(case_json(&cfg, start, path), v.symptom, v.detail, tags);
         }
         other => {
             out.machinery_errors.push(format!(
-                "non-deterministic re-execution of {} {}: first run {} / {}, second run {:?}",
-                cfg_json(&cfg),
-                ops_json(path),
+                "non-deterministic re-execution of {}: first run {} / {}, second run {:?}",
+                case_json(&cfg, start, path),
                 v.symptom,
                 v.detail,
                 other.map(|(s, v2)| (s, v2.symptom, v2.detail))
@@ -708,72 +1057,111 @@ fn record_failure(out: &mut ShardOut, cfg: Cfg, path: &[u8], v: Violation) {
     }
 }
 
+/// Executes a seeded prefix on the real code (every evaluate in it is checked like any other).
+/// None: the prefix itself failed (recorded) or hit a machinery problem (recorded).
+fn run_prefix(env: &Env, start: u64, prefix: &[u8], out: &mut ShardOut) -> Option<St> {
+    let mut st = St::initial_at(start);
+    for (i, op) in prefix.iter().enumerate() {
+        if *op != OP_EVAL {
+            st.apply_plain(&env.cfg, *op);
+            continue;
+        }
+        if !st.eval_enabled() {
+            out.machinery_errors.push(format!("seeded prefix {} has a disabled evaluate at op {}", ops_json(prefix), i));
+            return None;
+        }
+        out.evaluations += 1;
+        out.traces += 1;
+        out.count("prefix_evaluations", 1);
+        match evaluate(env, &st) {
+            Ok(ok) => {
+                note_flags(out, "prefix_", &ok.flags);
+                st.after_eval(ok.result);
+            }
+            Err(EvalErr::Violation(v)) => {
+                record_failure(out, env.cfg, start, &prefix[..=i], v);
+                return None;
+            }
+            Err(EvalErr::Machinery(m)) => {
+                out.machinery_errors.push(format!("{}: {}", case_json(&env.cfg, start, &prefix[..=i]), m));
+                return None;
+            }
+        }
+    }
+    Some(st)
+}
+
 // ---------------------------------------------------------------- searches
 
-fn bfs(env: &Env, depth: usize, out: &mut ShardOut, ctx: &Ctx, cfg_index: usize) {
+/// De-duplicated BFS over the continuations (up to `depth` further ops) of the state `st0` that the
+/// history `prefix` reached. `tag` prefixes the counters ("bfs_" from the empty history, "sbfs_" seeded).
+fn bfs(env: &Env, st0: St, prefix: &[u8], depth: usize, out: &mut ShardOut, ctx: &Ctx, cfg_index: usize, tag: &str) {
     let cfg = env.cfg;
+    let start = st0.start;
+    let base = prefix.len();
     let mut seen: HashSet<(u64, u64)> = HashSet::new();
     let mut frontier: VecDeque<(St, Vec<u8>)> = VecDeque::new();
-    let st0 = St::initial();
     seen.insert(fp128(&rel_key(&st0)));
     out.states += 1;
-    frontier.push_back((st0, vec![]));
+    frontier.push_back((st0, prefix.to_vec()));
     let mut completed_depth = 0usize;
     while let Some((st, path)) = frontier.pop_front() {
-        if path.len() >= depth {
+        if path.len() - base >= depth {
             continue;
         }
         if ctx.expired() {
             out.capped.push(format!(
-                "wall-clock cap hit in BFS of configuration {} at depth {} (all histories of length <= {} of this configuration were completed; depth bound {})",
+                "wall-clock cap hit in the BFS of configuration {} from prefix {} (start {}) at depth {} (all continuations of length <= {} were completed; depth bound {})",
                 cfg_json(&cfg),
-                path.len() + 1,
+                ops_json(prefix),
+                start,
+                path.len() - base + 1,
                 completed_depth,
                 depth
             ));
-            out.count("bfs_configurations_capped", 1);
+            out.count(&format!("{}searches_capped", tag), 1);
             return;
         }
-        completed_depth = path.len();
-        for op in 0..N_OPS {
+        completed_depth = path.len() - base;
+        for op in 0..N_OPS_BFS {
             let mut st2 = st.clone();
             let mut p2 = path.clone();
             p2.push(op);
-            match op {
-                0..=5 => st2.arrive((op / 3) as usize, (op % 3) as usize),
-                OP_TICK => st2.tick(&cfg),
-                _ => {
-                    if !st.eval_enabled() {
-                        out.count("bfs_evaluate_disabled", 1);
-                        continue;
+            if op == OP_EVAL {
+                if !st.eval_enabled() {
+                    out.count(&format!("{}evaluate_disabled", tag), 1);
+                    continue;
+                }
+                out.evaluations += 1;
+                out.traces += 1;
+                let pre_key = fp128(&rel_key(&st));
+                match evaluate(env, &st) {
+                    Ok(ok) => {
+                        note_flags(out, tag, &ok.flags);
+                        if ok.flags.nontrivial {
+                            out.nontrivial(&(cfg_index, pre_key));
+                        }
+                        let rel_result = rel_map(&ok.result, st.now);
+                        out.outcome(&(cfg_index, &rel_result));
+                        if ok.flags.nontrivial && ok.flags.derived_expiry_changed && (base > 0 || cfg_index % 5 == 0) {
+                            out.sample(json!({"case": case_json(&cfg, start, &p2), "now": st.now, "result": show_facts(&ok.expected)}));
+                        }
+                        st2.after_eval(ok.result);
                     }
-                    out.evaluations += 1;
-                    out.traces += 1;
-                    let pre_key = fp128(&rel_key(&st));
-                    match evaluate(env, &st) {
-                        Ok(ok) => {
-                            note_flags(out, "bfs_", &ok.flags);
-                            if ok.flags.nontrivial {
-                                out.nontrivial(&(cfg_index, pre_key));
-                            }
-                            let rel_result = rel_map(&ok.result, st.now);
-                            out.outcome(&(cfg_index, &rel_result));
-                            if ok.flags.nontrivial && ok.flags.derived_expiry_changed {
-                                out.sample(json!({"config": cfg_json(&cfg), "ops": ops_json(&p2), "now": st.now, "result": show_facts(&ok.expected)}));
-                            }
-                            st2.carried = ok.result;
-                            st2.last_eval = Some(st.now);
-                        }
-                        Err(EvalErr::Violation(v)) => {
-                            out.transitions += 1;
-                            record_failure(out, cfg, &p2, v);
-                            continue; // a wrong state is not explored further
-                        }
-                        Err(EvalErr::Machinery(m)) => {
-                            out.machinery_errors.push(format!("{} {}: {}", cfg_json(&cfg), ops_json(&p2), m));
-                            return;
-                        }
+                    Err(EvalErr::Violation(v)) => {
+                        out.transitions += 1;
+                        record_failure(out, cfg, start, &p2, v);
+                        continue; // a wrong state is not explored further
                     }
+                    Err(EvalErr::Machinery(m)) => {
+                        out.machinery_errors.push(format!("{}: {}", case_json(&cfg, start, &p2), m));
+                        return;
+                    }
+                }
+            } else {
+                st2.apply_plain(&cfg, op);
+                if op == OP_FLUSH {
+                    out.count(&format!("{}flush_transitions", tag), 1);
                 }
             }
             out.transitions += 1;
@@ -783,60 +1171,60 @@ fn bfs(env: &Env, depth: usize, out: &mut ShardOut, ctx: &Ctx, cfg_index: usize)
             }
             out.states += 1;
             out.max_depth = out.max_depth.max(p2.len() as u64);
-            if p2.len() < depth {
+            out.max("max_evaluations_in_one_history", st2.evals_done as u64);
+            if p2.len() - base < depth {
                 // states at the depth bound are counted and were checked, but never expanded
                 frontier.push_back((st2, p2));
             }
         }
     }
-    out.count("bfs_configurations_completed", 1);
+    out.count(&format!("{}searches_completed", tag), 1);
 }
 
-/// plain tree search, no de-duplication of any kind
-fn tree(env: &Env, st: &St, path: &mut Vec<u8>, depth: usize, out: &mut ShardOut, ctx: &Ctx) -> bool {
-    if path.len() >= depth {
+/// plain tree search, no de-duplication of any kind, over the continuations of `st` (reached by
+/// the first `base` ops of `path`) up to `depth` further ops
+fn tree(env: &Env, st: &St, path: &mut Vec<u8>, base: usize, depth: usize, out: &mut ShardOut, ctx: &Ctx, tag: &str) -> bool {
+    if path.len() - base >= depth {
         return true;
     }
     if ctx.expired() {
         return false;
     }
     let cfg = env.cfg;
-    for op in 0..N_OPS {
+    for op in 0..N_OPS_TREE {
         let mut st2 = st.clone();
         path.push(op);
         let mut descend = true;
-        match op {
-            0..=5 => st2.arrive((op / 3) as usize, (op % 3) as usize),
-            OP_TICK => st2.tick(&cfg),
-            _ => {
-                if !st.eval_enabled() {
-                    descend = false;
-                } else {
-                    out.evaluations += 1;
-                    out.traces += 1;
-                    out.count("tree_evaluations", 1);
-                    match evaluate(env, st) {
-                        Ok(ok) => {
-                            note_flags(out, "tree_", &ok.flags);
-                            st2.carried = ok.result;
-                            st2.last_eval = Some(st.now);
-                        }
-                        Err(EvalErr::Violation(v)) => {
-                            record_failure(out, cfg, path, v);
-                            descend = false;
-                        }
-                        Err(EvalErr::Machinery(m)) => {
-                            out.machinery_errors.push(format!("{} {}: {}", cfg_json(&cfg), ops_json(path), m));
-                            path.pop();
-                            return false;
-                        }
+        if op == OP_EVAL {
+            if !st.eval_enabled() {
+                descend = false;
+            } else {
+                out.evaluations += 1;
+                out.traces += 1;
+                out.count(&format!("{}evaluations", tag), 1);
+                match evaluate(env, st) {
+                    Ok(ok) => {
+                        note_flags(out, tag, &ok.flags);
+                        st2.after_eval(ok.result);
+                        out.max("max_evaluations_in_one_history", st2.evals_done as u64);
+                    }
+                    Err(EvalErr::Violation(v)) => {
+                        record_failure(out, cfg, st.start, path, v);
+                        descend = false;
+                    }
+                    Err(EvalErr::Machinery(m)) => {
+                        out.machinery_errors.push(format!("{}: {}", case_json(&cfg, st.start, path), m));
+                        path.pop();
+                        return false;
                     }
                 }
             }
+        } else {
+            st2.apply_plain(&cfg, op);
         }
         if descend {
-            out.count("tree_nodes", 1);
-            if !tree(env, &st2, path, depth, out, ctx) {
+            out.count(&format!("{}nodes", tag), 1);
+            if !tree(env, &st2, path, base, depth, out, ctx, tag) {
                 path.pop();
                 return false;
             }
@@ -848,32 +1236,74 @@ fn tree(env: &Env, st: &St, path: &mut Vec<u8>, depth: usize, out: &mut ShardOut
 
 fn run(ctx: &Ctx) -> ShardOut {
     let mut out = ShardOut::default();
-    let (bfs_depth, tree_depth) = if ctx.thorough() { (9, 6) } else { (6, 4) };
-    out.max("max_bfs_depth_bound", bfs_depth as u64);
-    out.max("max_tree_depth_bound", tree_depth as u64);
+    // thorough: the 128 configurations of the first round (first 8 rule sets, prefix-free IRIs,
+    // alpha in {2,3}) keep depth 9 / 6; the 160 later ones get 8 / 5, so that the tier stays inside
+    // its wall-clock cap
+    let (seed_bfs_depth, seed_tree_depth) = if ctx.thorough() { (4, 4) } else { (3, 3) };
+    let depths = |cfg: &Cfg| -> (usize, usize) {
+        let first_round = cfg.rs < 8 && cfg.iris == Iris::Plain && cfg.alpha.iter().all(|a| *a == 2 || *a == 3);
+        match (ctx.thorough(), first_round) {
+            (false, _) => (6, 4),
+            (true, true) => (9, 6),
+            (true, false) => (8, 5),
+        }
+    };
+    out.max("max_bfs_depth_bound", if ctx.thorough() { 9 } else { 6 });
+    out.max("max_tree_depth_bound", if ctx.thorough() { 6 } else { 4 });
+    out.max("max_seeded_bfs_depth_bound", seed_bfs_depth as u64);
+    out.max("max_seeded_tree_depth_bound", seed_tree_depth as u64);
     let cfgs = configs();
-    // tree searches first (small), then the BFS of every configuration of this shard
-    for (i, cfg) in cfgs.iter().enumerate() {
+    let prefixes = seed_prefixes();
+    out.max("max_configurations", cfgs.len() as u64);
+    // tree searches first (small), then the BFSs of every configuration of this shard
+    'trees: for (i, cfg) in cfgs.iter().enumerate() {
         if !ctx.mine(i as u64) {
             continue;
         }
         let env = make_env(*cfg);
         let mut path = Vec::new();
-        if !tree(&env, &St::initial(), &mut path, tree_depth, &mut out, ctx) && out.machinery_errors.is_empty() {
-            out.capped.push(format!("wall-clock cap hit in the tree search of configuration {}", cfg_json(cfg)));
+        if !tree(&env, &St::initial_at(STARTS[0]), &mut path, 0, depths(cfg).1, &mut out, ctx, "tree_") {
+            if out.machinery_errors.is_empty() {
+                out.capped.push(format!("wall-clock cap hit in the tree search of configuration {}", cfg_json(cfg)));
+            }
+            break 'trees;
+        }
+        for (k, (_, prefix)) in prefixes.iter().enumerate() {
+            let start = STARTS[1 + k % 2];
+            let st = match run_prefix(&env, start, prefix, &mut out) {
+                Some(st) => st,
+                None => continue,
+            };
+            let mut path = prefix.clone();
+            if !tree(&env, &st, &mut path, prefix.len(), seed_tree_depth, &mut out, ctx, "stree_") {
+                if out.machinery_errors.is_empty() {
+                    out.capped.push(format!("wall-clock cap hit in the seeded tree search of configuration {} from prefix {}", cfg_json(cfg), ops_json(prefix)));
+                }
+                break 'trees;
+            }
+            out.count("stree_searches_completed", 1);
         }
     }
     for (i, cfg) in cfgs.iter().enumerate() {
-        if !ctx.mine(i as u64) {
+        if !ctx.mine(i as u64) || !out.machinery_errors.is_empty() {
             continue;
         }
         if let Some(p) = &ctx.progress {
             p.mark(&cfg_json(cfg).to_string());
         }
         let env = make_env(*cfg);
-        bfs(&env, bfs_depth, &mut out, ctx, i);
-        if !out.machinery_errors.is_empty() {
-            break;
+        bfs(&env, St::initial_at(STARTS[0]), &[], depths(cfg).0, &mut out, ctx, i, "bfs_");
+        for (k, (name, prefix)) in prefixes.iter().enumerate() {
+            if !out.machinery_errors.is_empty() {
+                break;
+            }
+            // the other shifted start time than the seeded tree of the same prefix
+            let start = STARTS[2 - k % 2];
+            if let Some(st) = run_prefix(&env, start, prefix, &mut out) {
+                out.count(&format!("seed_{}_reached_with_carried_alive_fact", name), st.carried.values().any(|m| m.values().any(|e| *e > st.now)) as u64);
+                out.count(&format!("seed_{}_reached_with_only_expired_carried_facts", name), (!st.carried.is_empty() && st.carried.values().all(|m| m.values().all(|e| *e <= st.now))) as u64);
+                bfs(&env, st, prefix, seed_bfs_depth, &mut out, ctx, i, "sbfs_");
+            }
         }
     }
     out
@@ -888,6 +1318,17 @@ fn replay(_ctx: &Ctx, case: &Value) -> ShardOut {
             return out;
         }
     };
+    // cases recorded before the start-time dimension existed have no "start" member: 0
+    let start = match case.get("start") {
+        None | Some(Value::Null) => 0,
+        Some(v) => match v.as_u64() {
+            Some(s) if s <= (1u64 << 60) => s,
+            _ => {
+                out.machinery_errors.push(format!("replay: unusable start time {}", v));
+                return out;
+            }
+        },
+    };
     let mut path = Vec::new();
     for v in case["ops"].as_array().cloned().unwrap_or_default() {
         match v.as_str().and_then(parse_op) {
@@ -898,7 +1339,7 @@ fn replay(_ctx: &Ctx, case: &Value) -> ShardOut {
             }
         }
     }
-    let r = run_history(cfg, &path);
+    let r = run_history(cfg, start, &path);
     out.evaluations = r.evals;
     out.traces = 1;
     for (i, line) in r.results.iter().enumerate() {
@@ -910,7 +1351,7 @@ fn replay(_ctx: &Ctx, case: &Value) -> ShardOut {
     if let Some((step, v)) = r.failure {
         let mut tags = v.tags;
         tags.push(format!("history_evaluations={}", r.evals.min(3)));
-        out.fail(json!({"config": cfg_json(&cfg), "ops": ops_json(&path[..=step])}), v.symptom, v.detail, tags);
+        out.fail(case_json(&cfg, start, &path[..=step]), v.symptom, v.detail, tags);
     }
     out
 }
